@@ -358,3 +358,82 @@ def grep_gate(rep):
                 hits.append("%s: %s" % (os.path.relpath(f, COQ), m.group(0)))
     rep.oblig("grep-gate: no Axiom/Parameter/Admitted/admit/guard switches", not hits, "; ".join(hits[:10]))
     return not hits
+
+
+# ---------------------------------------------------------------------------------------------
+# translator validation by runtime reflection
+
+_REFL = {}
+
+
+def reflect():
+    if "r" not in _REFL:
+        rc, out, _ = sh([PY, os.path.join(TOOLS, "reflect_tables.py")], timeout=120, env=impl_env())
+        if rc != 0:
+            raise RuntimeError("reflection failed:\n" + out[-3000:])
+        _REFL["r"] = json.loads(out.strip().split("\n")[-1])
+    return _REFL["r"]
+
+
+def validate_translator(rep, summary, parts=("tables", "opcodes", "sense", "init_cdb")):
+    """compare what the translator extracted by `ast` with what the imported package really holds"""
+    r = reflect()
+    diffs = []
+    n = 0
+    if "tables" in parts:
+        tq = {t["qual"]: t["entries"] for t in summary["tables"]}
+        for k, v in r["tables"].items():
+            n += 1
+            if k not in tq:
+                diffs.append("table %s exists at run time but was not translated" % k)
+            elif [[a, list(b)] for a, b in tq[k]] != v:
+                diffs.append("table %s: translated entries differ from the run-time object" % k)
+        for k in tq:
+            if k not in r["tables"]:
+                diffs.append("table %s translated but absent at run time" % k)
+    if "opcodes" in parts:
+        o = summary["opcodes"]
+        for s in ("spc", "sbc", "ssc", "smc", "mmc"):
+            src = o["enums"].get(s)
+            tr = [[e[0], e[1], e[2], [list(x) for x in e[3]]] for e in o["op_dicts"].get(src, [])]
+            n += len(tr)
+            if tr != r["opcodes"][s]:
+                diffs.append("opcode set %s: translated entries differ from the run-time Enum" % s)
+        st = o["int_dicts"].get(o["enums"].get("SCSI_STATUS"), [])
+        if [list(x) for x in st] != r["status"]:
+            diffs.append("SCSI_STATUS differs from the run-time Enum")
+    if "sense" in parts:
+        t = summary["sense"]
+        if t["consts"] != r["sense"]["consts"]:
+            diffs.append("SENSE_FORMAT constants differ")
+        if [list(x) for x in t["sense_key_dict"]] != r["sense"]["sense_key_dict"]:
+            diffs.append("sense_key_dict differs")
+        if t["n_ascq"] != r["sense"]["n_ascq"]:
+            diffs.append("sense_ascq_dict size differs")
+        if {k: list(v) for k, v in t["ranges"].items()} != r["sense"]["ranges"]:
+            diffs.append("vendor specific ranges differ")
+        n += t["n_ascq"] + len(t["sense_key_dict"])
+    rep.oblig("translator validated by reflection (%s): %d objects compared" % ("+".join(parts), n), not diffs,
+              "; ".join(diffs[:8]))
+    rep.extra.setdefault("translator_validation", {})["objects_compared"] = n
+    if r["import_errors"]:
+        rep.oblig("every module imports", False, json.dumps(r["import_errors"]))
+    return diffs
+
+
+def parse_spec_pairs(relpath, defname):
+    """parse `Definition <defname> ... := [ ("NAME", h X Y | N); ... ].` from a Spec .v file -> dict"""
+    txt = open(os.path.join(COQ, relpath)).read()
+    txt = re.sub(r"\(\*.*?\*\)", "", txt, flags=re.S)
+    m = re.search(r"Definition %s\b.*?:=\s*\[(.*?)\]\." % re.escape(defname), txt, re.S)
+    hexd = dict(xA=10, xB=11, xC=12, xD=13, xE=14, xF=15)
+    out = {}
+    for name, val in re.findall(r'\("([^"]+)",\s*(h \w+ \w+|\d+)\)', m.group(1)):
+        if val.startswith("h "):
+            _, a, b = val.split()
+            v = hexd.get(a, None) if a in hexd else int(a)
+            w = hexd.get(b, None) if b in hexd else int(b)
+            out[name] = v * 16 + w
+        else:
+            out[name] = int(val)
+    return out
